@@ -62,3 +62,19 @@ def replay_with(f, post=None, check_imports=True):
 
 def replay(f):
     return replay_with(f)
+
+
+def manifestation(sig):
+    """how a failure shows: the exception type of the refactored program, 'output' for a silently
+    different result, or the verdict (does_not_parse, import_fails, ...).  A root-cause tag explains a
+    failure only together with a manifestation it is known to have, so a new way of failing in the
+    same syntactic situation is not absorbed by an old finding."""
+    import re as _re
+
+    m = _re.search(r":after=([A-Za-z_:]+):behaviour_changed", sig)
+    if m:
+        return "output" if m.group(1) == "None" else m.group(1)
+    for v in ("does_not_parse", "import_fails", "generated_code_does_not_parse", "internal", "not_removed"):
+        if ":" + v in sig:
+            return v
+    return "other"
